@@ -25,7 +25,7 @@ CLAIMED['C19'] = dict(
          'method table PUT/POST/DELETE, empty delete body, text content type, timeout hand-over, gateway spelling equivalences. The literals, the '
          'sorted() call and the escape shape are re-extracted from exposition.py on every run; model vs real code on ~7·10^3 requests (exhaustive '
          'short strings over a URL-significant alphabet + random) with an independent decoder oracle (urlsafe_b64decode / unquote_plus) on the real URLs.',
-    note="The lossless theorems hold under BOTH decoders: the Pushgateway's path unescaping ('+' literal; *_go theorems, which depend on the extracted encoder flag) and form decoding. Trusted: urlparse reduced to its scheme test (compared with the real urlparse per case); sorted() of unique str keys = code-point order; exposition body is an opaque parameter here (C03 covers it); the registry-is-None branch of pushadd_to_gateway is not modelled; job is a str."
+    note="The lossless theorems hold under BOTH decoders: the Pushgateway's path unescaping ('+' literal; *_go theorems, which depend on the extracted encoder flag) and form decoding. Trusted: urlparse reduced to its scheme test (compared with the real urlparse per case); sorted() of unique str keys = code-point order; exposition body is an opaque parameter here (C03 covers it); job is a str."
          " The library's own handlers are inside the model too (Props/C19Handlers: default/passthrough/basic-auth handler send exactly the request _use_gateway built — method, URL, headers, body, caller's time-out; status >= 400 raises OSError; a followed redirect keeps method/body/headers; registry=None means REGISTRY), re-extracted from exposition.py and run against a loopback http.server and a stubbed opener; urllib's opener, http.client and sockets are trusted; tls_auth_handler not modelled.",
     ref='DESIGN.md 5 C19')
 
